@@ -379,7 +379,7 @@ func CheckC17Unit(run *harness.Run) ([]harness.Finding, map[string]interface{}, 
 		"exhaustive":           true,
 		"exhaustive_sequences": exhaustiveSeqs,
 		"exhaustive_sequences_at_boundary_heights_(2^31,2^32,2^63,2^64-1)": boundarySeqs,
-		"deliveries_judged":    delivs,
+		"deliveries_judged": delivs,
 		"cached_messages_evicted_by_a_later_higher_height_(not_judged_for_loss)": evicted,
 		"violations_by_rule": byRule,
 	}
